@@ -394,6 +394,8 @@ pub fn special_ext_tasks() -> Vec<ExtTask> {
         mk("out(X) :- in(X).", false, "out(X) :- in(X), X = X.", "input: in/1. output: out/1. assumption: forall X (in(X) -> a < X < c).", ""),
         mk("spec: forall X (out(X) <-> in(X)). assumption: forall X (in(X) -> 1 <= X < c0 < d).", true, "out(X) :- in(X).", "input: in/1. output: out/1.", ""),
         mk("out(X) :- in(X).", false, "out(X) :- in(X), X = X.", "input: in/1. output: out/1.", "lemma: forall X (out(X) -> X < a0 <= e or not X < a0 or not a0 <= e)."),
+        // a symbol that clashes with a 0-ary predicate, only in a later guard of a chained comparison
+        mk("spec: forall X (out(X) <-> in(X) and a0 < X < a and not a). assumption: a <-> exists X in(X).", true, "a :- in(X). out(X) :- in(X), a0 < X, X < a, not a.", "input: in/1. output: out/1.", ""),
     ]
 }
 
